@@ -101,6 +101,10 @@ class Creators:
       if isinstance(gfa_line, str):
         gfa_line = gfapy.Line(gfa_line, vlevel=self._vlevel,
             dialect=self._dialect)
+      if gfa_line.VN and self._vlevel > 0 and \
+          gfa_line.VN not in ["1.0", "2.0"]:
+        raise gfapy.VersionError(
+          "GFA specification version {} not supported".format(gfa_line.VN))
       self.header._merge(gfa_line)
       if gfa_line.VN:
         if gfa_line.VN == "1.0":
@@ -123,11 +127,11 @@ class Creators:
       self.process_line_queue()
       gfa_line.connect(self)
     elif rt in ["E", "F", "G", "U", "O"]:
-      self._version = "gfa2"
-      self._version_explanation = "implied by: presence of a {} line".format(rt)
       if isinstance(gfa_line, str):
         gfa_line = gfapy.Line(gfa_line, vlevel=self._vlevel,
-            version=self._version, dialect=self._dialect)
+            version="gfa2", dialect=self._dialect)
+      self._version = "gfa2"
+      self._version_explanation = "implied by: presence of a {} line".format(rt)
       self.process_line_queue()
       gfa_line.connect(self)
     elif rt in ["L", "C", "P"]:
